@@ -99,7 +99,8 @@ def check_result(h, what, res, n, bound_calls=None):
     return red
 
 
-def run_L1(h, case):
+def run_L1(h, case, check=None):
+    check = check or check_result
     n, fn = case['n'], case['fn']
     rdp, M = h.L.rdp, h.L.metrics.Metrics
     pts = tagged_points(h, n)
@@ -110,37 +111,38 @@ def run_L1(h, case):
         if fn == 'rdp':
             t = h.real('t')
             h.assume(band(t > 0, t <= 1) if case['metric'] == 'r2' else t > 0, 't > 0 (t <= 1 for R2)')
-            red = check_result(h, 'rdp', rdp.rdp(pts, t, dist, getattr(M, case['metric'])), n)
+            red = check(h, 'rdp', rdp.rdp(pts, t, dist, getattr(M, case['metric'])), n)
             h.prove(st.calls['cost'] + 0 <= 2 * n - 3 or n <= 2, 'refinement steps bounded by 2n-3')
             sig = red
         elif fn == 'rdp_fixed':
-            red = check_result(h, 'rdp_fixed', rdp.rdp_fixed(pts, case['length'], dist, getattr(rdp.Order, case['order'])), n)
+            red = check(h, 'rdp_fixed', rdp.rdp_fixed(pts, case['length'], dist, getattr(rdp.Order, case['order'])), n)
             h.prove(st.calls['dist'] <= 3 * max(n - 2, 0) + 3 * n, 'refinement steps bounded linearly in n')
             h.prove(len(red) == min(max(case['length'], 2), n), 'exactly min(max(k,2),n) indices')
             sig = red
         elif fn == 'grdp':
             t = h.real('t')
             h.assume(t > 0, 't > 0')
-            red = check_result(h, 'grdp', rdp.grdp(pts, t, dist, getattr(M, case['metric']), getattr(rdp.Order, case['order'])), n)
+            red = check(h, 'grdp', rdp.grdp(pts, t, dist, getattr(M, case['metric']), getattr(rdp.Order, case['order'])), n)
             h.prove(st.calls['G'] <= n, 'at most n-1 global-cost evaluations (one per insertion)')
             sig = red
         elif fn == 'mp_grdp':
             t = h.real('t')
             h.assume(t > 0, 't > 0')
-            red = check_result(h, 'mp_grdp', rdp.mp_grdp(pts, t, case['min_points'], dist, getattr(M, case['metric']), getattr(rdp.Order, case['order'])), n)
+            red = check(h, 'mp_grdp', rdp.mp_grdp(pts, t, case['min_points'], dist, getattr(M, case['metric']), getattr(rdp.Order, case['order'])), n)
             h.prove(len(red) >= min(case['min_points'], n), 'at least min(min_points, n) indices')
             sig = red
         elif fn == 'min_point_rdp':
             ts = [h.real('t%d' % i) for i in range(case['nt'])]
             for t in ts:
                 h.assume(t > 0, 't > 0')
-            red = check_result(h, 'min_point_rdp', rdp.min_point_rdp(pts, list(ts), case['min_points']), n)
+            red = check(h, 'min_point_rdp', rdp.min_point_rdp(pts, list(ts), case['min_points']), n)
             h.prove(len(red) >= min(case['min_points'], n), 'at least min(min_points, n) indices')
             sig = red
     return sig
 
 
-def run_L0(h, case):
+def run_L0(h, case, check=None):
+    check = check or check_result
     fn = case['fn']
     rdp, M = h.L.rdp, h.L.metrics.Metrics
     X, Y = slice_points(h, get_curve(case['curve']), case['pos'])
@@ -150,29 +152,29 @@ def run_L0(h, case):
     if fn == 'rdp':
         t = h.real('t')
         h.assume(band(t > 0, t <= 1) if case['metric'] == 'r2' else t > 0, 't > 0 (t <= 1 for R2)')
-        red = check_result(h, 'rdp', rdp.rdp(pts, h.num(t), dist, getattr(M, case['metric'])), n)
+        red = check(h, 'rdp', rdp.rdp(pts, h.num(t), dist, getattr(M, case['metric'])), n)
     elif fn == 'rdp_fixed':
         red = []
         for k in range(0, n + 2):
-            red.append(check_result(h, 'rdp_fixed', rdp.rdp_fixed(pts, k, dist, getattr(rdp.Order, case['order'])), n))
+            red.append(check(h, 'rdp_fixed', rdp.rdp_fixed(pts, k, dist, getattr(rdp.Order, case['order'])), n))
             h.prove(len(red[-1]) == min(max(k, 2), n), 'exactly min(max(k,2),n) indices')
     elif fn == 'grdp':
         t = h.real('t')
         h.assume(band(t > 0, t <= 1) if case['metric'] == 'r2' else t > 0, 't > 0 (t <= 1 for R2)')
-        red = check_result(h, 'grdp', rdp.grdp(pts, h.num(t), dist, getattr(M, case['metric']), getattr(rdp.Order, case['order'])), n)
+        red = check(h, 'grdp', rdp.grdp(pts, h.num(t), dist, getattr(M, case['metric']), getattr(rdp.Order, case['order'])), n)
     elif fn == 'mp_grdp':
         t = h.real('t')
         h.assume(t > 0, 't > 0')
         red = []
         for mp in (0, 3, n, n + 1):
-            red.append(check_result(h, 'mp_grdp', rdp.mp_grdp(pts, h.num(t), mp, dist, getattr(M, case['metric']), getattr(rdp.Order, case['order'])), n))
+            red.append(check(h, 'mp_grdp', rdp.mp_grdp(pts, h.num(t), mp, dist, getattr(M, case['metric']), getattr(rdp.Order, case['order'])), n))
             h.prove(len(red[-1]) >= min(mp, n), 'at least min(min_points, n) indices')
     elif fn == 'min_point_rdp':
         t1, t2 = h.real('t1'), h.real('t2')
         h.assume(band(t1 > 0, t2 > 0), 't > 0')
         red = []
         for mp in (2, 3, n):
-            red.append(check_result(h, 'min_point_rdp', rdp.min_point_rdp(pts, [h.num(t1), h.num(t2)], mp), n))
+            red.append(check(h, 'min_point_rdp', rdp.min_point_rdp(pts, [h.num(t1), h.num(t2)], mp), n))
             h.prove(len(red[-1]) >= min(mp, n), 'at least min(min_points, n) indices')
     h.prove(not h.writes(), 'arguments unmodified')
     return red
